@@ -116,6 +116,18 @@ def rand_nodedoc(rng, n, cyclic=False):
     return D.NodeDoc(nodes, free=[4 + n])
 
 
+def ring_nodedoc(rng, k):
+    """k objects that eagerly load each other in a ring and survive the nested error, one entry object, one leaf"""
+    ids = list(range(4, 4 + k))
+    nodes = {}
+    for j, i in enumerate(ids):
+        nodes[i] = dict(v=rng.randrange(1000), swallow=True, e0=0, e1=0, deps=[(0, ids[(j + 1) % k])])
+    nodes[4 + k] = dict(v=rng.randrange(1000), swallow=rng.random() < 0.5, e0=0, e1=0, deps=[(0, rng.choice(ids))])
+    nodes[5 + k] = dict(v=rng.randrange(1000), swallow=True, e0=rng.choice([0, 2]), e1=0, deps=[])
+    nodes[ids[0]]["deps"].append((rng.randrange(2), 5 + k))
+    return D.NodeDoc(nodes, free=[6 + k])
+
+
 def orderings(kinds, upto=3):
     for k in range(1, upto + 1):
         for p in itertools.permutations(kinds, k):
@@ -127,9 +139,7 @@ def node_scenarios(rng, tier):
     n_docs = 6 if tier == "quick" else 40
     for di in range(n_docs):
         cyc = di % 3 == 2
-        nd = rand_nodedoc(rng, rng.randint(3, 7), cyclic=cyc)
-        if cyc and nd.acyclic():
-            cyc = False
+        nd = ring_nodedoc(rng, 2 + (di // 3) % 2) if cyc else rand_nodedoc(rng, rng.randint(3, 7))
         data = D.build_file(nd.objects(), free=nd.free)
         ids = sorted(nd.nodes) + sorted(nd.free)
         tags = ["node", "cyclic" if not nd.acyclic() else "acyclic"]
@@ -137,7 +147,10 @@ def node_scenarios(rng, tier):
         for r in ids:
             for o in orderings([0, 1, 2]):
                 out.append(Scenario("node", b"s", data, [(0, ty, r) for ty in o], nodedoc=nd, tags=tags + ["exhaustive"]))
-        # pairs of objects: parent/child in both orders with both types
+        if cyc:
+            # every ordering of up to 3 distinct objects (one type): the order-dependence of C12-c
+            for o in orderings(sorted(nd.nodes), 3):
+                out.append(Scenario("node", b"s", data, [(0, 0, r) for r in o], nodedoc=nd, tags=tags + ["exhaustive"]))
         for _ in range(30 if tier == "quick" else 120):
             L = rng.randint(2, 12)
             calls = [(0, rng.randrange(3), rng.choice(ids)) for _ in range(L)]
